@@ -742,6 +742,36 @@ func directedAssignPkgs() []*apkg {
 			{Name: "on_e", Params: []string{"Token"}, Results: []string{"struct{ ID int }"}, MkExpr: "struct{ ID int }{ID: id}"},
 			{Name: "on_f", Params: []string{"Token"}, Results: []string{"helper.List"}, MkExpr: "helper.List{int32(id)}"}},
 		[][]int{{0, 0, 0, 0, 0, 1, 0}, {0, 0, 0, 0, 0, 0, 0, 0}}))
+	// convertible but NOT assignable parameter types must not match: two named types with one underlying type
+	// (K1/int as named int vs int is assignable only one way: K1 term to int parameter is not), named slices of
+	// different names, named func types of different names
+	out = append(out, mk("d0090", "convertible-not-assignable-reject", 0,
+		&GSpec{Tokens: []string{"TA", "TB"}, Rules: []*GRule{
+			{Name: "s", Prods: []*GProd{{Terms: []*GTerm{rule(1), rule(2), rule(3)}}}},
+			{Name: "a", Prods: []*GProd{{Terms: []*GTerm{tok(0)}}}},
+			{Name: "b", Prods: []*GProd{{Terms: []*GTerm{tok(0)}}}},
+			{Name: "c", Prods: []*GProd{{Terms: []*GTerm{tok(1)}}}}}},
+		[]string{"int", "K1", "L1", "F1"},
+		[]*amethod{
+			{Name: "on_s", Params: []string{"int", "helper.List", "F1"}, Results: []string{"int"}, MkExpr: "id"},
+			{Name: "on_a", Params: []string{"Token"}, Results: []string{"K1"}, MkExpr: "K1(id)"},
+			{Name: "on_b", Params: []string{"Token"}, Results: []string{"L1"}, MkExpr: "L1{int32(id)}"},
+			{Name: "on_c", Params: []string{"Token"}, Results: []string{"F1"}, MkExpr: "F1(func() int { return id })"}},
+		nil))
+	// two methods distinguished only by mutually CONVERTIBLE parameter types: exactly one is assignable, so the
+	// package is valid (a matcher based on convertibility would call it ambiguous)
+	out = append(out, mk("d0091", "convertible-alternatives-accept", 0,
+		&GSpec{Tokens: []string{"TA", "TB"}, Rules: []*GRule{
+			{Name: "s", Prods: []*GProd{{Terms: []*GTerm{rule(1)}}, {Terms: []*GTerm{rule(2)}}}},
+			{Name: "a", Prods: []*GProd{{Terms: []*GTerm{tok(0)}}}},
+			{Name: "b", Prods: []*GProd{{Terms: []*GTerm{tok(1)}}}}}},
+		[]string{"int", "K1", "string"},
+		[]*amethod{
+			{Name: "on_s__k", Params: []string{"K1"}, Results: []string{"int"}, MkExpr: "id"},
+			{Name: "on_s__s", Params: []string{"string"}, Results: []string{"int"}, MkExpr: "id"},
+			{Name: "on_a", Params: []string{"Token"}, Results: []string{"K1"}, MkExpr: "K1(id)"},
+			{Name: "on_b", Params: []string{"Token"}, Results: []string{"string"}, MkExpr: "itoa(id)"}},
+		[][]int{{0}, {1}}))
 	// D16: variadic action method: s = A* n ; on_s(a []Token, n ...int32) must be refused
 	out = append(out, mk("d0002", "D16-variadic", 0,
 		&GSpec{Tokens: []string{"TA", "TB"}, Rules: []*GRule{
